@@ -452,15 +452,15 @@ def main(tier):
         # trees get it on every third tree, everything else on every scenario)
         plan = [("C06_unit", dict(perturb_every=4, t16_every=3, workers=4)),
                 ("C06_roots", dict(perturb_every=1, workers=2)),
-                ("C06_dev", dict(perturb_every=4, t16_every=3, workers=4)),
-                ("C06_rand", dict(simulate=80, depth=12, perturb_every=1, workers=4))]
+                ("C06_dev", dict(perturb_every=4, t16_every=3, workers=3)),
+                ("C06_rand", dict(simulate=107, depth=12, perturb_every=1, workers=3))]   # simulate = traces per worker
     else:
-        plan = [("C06_unit_deep", dict(perturb_every=1, workers=4)),
-                ("C06_small", dict(perturb_every=2, workers=4)),
-                ("C06_dev", dict(perturb_every=1, workers=4)),
-                ("C06_deep", dict(perturb_every=4, t16_every=2, timeout=2400, workers=6)),
-                ("C06_rand", dict(simulate=800, depth=12, perturb_every=1, timeout=2400, workers=4))]
-    # TLC runs of later sets overlap with the replay of earlier ones (at most 12 TLC workers at a time in the quick tier)
+        plan = [("C06_unit_deep", dict(perturb_every=1, workers=3)),
+                ("C06_small", dict(perturb_every=2, workers=3)),
+                ("C06_dev", dict(perturb_every=1, workers=3)),
+                ("C06_deep", dict(perturb_every=4, t16_every=2, timeout=2400, workers=4)),
+                ("C06_rand", dict(simulate=1067, depth=12, perturb_every=1, timeout=2400, workers=3))]
+    # TLC runs of later sets overlap with the replay of earlier ones (three at a time + the design run: <= 12 TLC workers)
     import concurrent.futures as cf
     with cf.ThreadPoolExecutor(max_workers=3) as pool:
         futs = [(cfg, kw, pool.submit(run_tlc, cfg, **kw)) for cfg, kw in plan]
